@@ -472,6 +472,8 @@ def witnesses(ck):
         # eval_condition_for_slice recurses once per nesting level (condition.rs): ~10^5 nested groups overflow the stack
         "F30": "S\t" + enc_str("if " + "( " * 60000 + "true" + " )" * 60000 + "\nend\n"),
         # a <scope> function whose body pops its own frame: `end` / `return` fail and do not return to the caller
+        # calc hands the expression to the evalexpr crate, whose parser recurses once per nested parenthesis: ~5*10^4 levels overflow the stack
+        "F32": "S\t" + enc_str("r = calc " + "(" * 60000 + "1" + ")" * 60000 + "\n"),
         "F31": "S\t" + enc_str("fn <scope> f\nscope_pop_stack\nend\nf\necho done\n"),
         "F31#return": "S\t" + enc_str("fn <scope> f\nscope_pop_stack\nreturn x\nend\nr = f\necho done\n"),
     }
@@ -486,7 +488,7 @@ def witnesses(ck):
         outp = os.path.join(d, "out_" + k)
         try:
             p = subprocess.run([exe, "--out", outp, "--work", os.path.join(d, "w_" + k)], input=(line + "\n").encode("utf8"),
-                               stdout=subprocess.DEVNULL, stderr=subprocess.DEVNULL, timeout=(40.0 if k == "F30" else 8.0), preexec_fn=limits)
+                               stdout=subprocess.DEVNULL, stderr=subprocess.DEVNULL, timeout=(40.0 if k in ("F30", "F32") else 8.0), preexec_fn=limits)
             got = open(outp).read().split("\n")[0] if os.path.exists(outp) else ""
             return k, (got if got else "ABORT rc=%s" % p.returncode)
         except subprocess.TimeoutExpired:
@@ -509,7 +511,8 @@ def run(ck):
     # shows the arm dead for all inputs (Src_strings_*: `defined`, Src_onerror_*: `Some`, Src_cli_dispatch: `Some`,
     # Src_condslice_total, Src_eval_instructions_step_no_panic, Src_parser_* over the index-faithful parser ...)
     for tie in ("parser", "expand", "registry", "cond", "condslice", "runner", "eval", "alias", "onerror", "strings", "cli",
-                "findcmds", "collections", "var", "include", "flowfor", "flowfn"):
+                "findcmds", "collections", "var", "include", "flowfor", "flowfn", "regcmds", "regfn", "json", "smallnat", "fs",
+                "codeccmds"):
         try:
             ck.source_tie(tie)
         except KeyError:
@@ -566,6 +569,26 @@ def run(ck):
                                       if in_known_class("range", [a_, b_]) is None else "noop",
                                       "h = hex_encode %s" % a_, "rr = random_range %s %s" % (a_, b_),
                                       "sub = substring hello %s %s" % (a_, b_)]) + "\n")
+    # spread stream (seed C07-w6-m1: the re-parse of a %{name} value with an unterminated quote that contains an escaped quote ran
+    # past the end of the text): every value of length <= 4 (5 thorough) over  " \ a space #  re-parsed as command arguments
+    SPREAD = ['"', "\\", "a", " ", "#"]
+    for n_ in range(0, (6 if thorough else 5)):
+        for t_ in itertools.product(SPREAD, repeat=n_):
+            v_ = "".join(t_)
+            scripts.append("v = set %s\no1 = array %%{v}\no2 = concat x %%{v} y\no3 = set %%{v}\necho %%{v} %%{v}\n" % quote(v_))
+    # deep-nesting stream (seed C07-w6-m2: json_parse without serde's recursion limit overflowed the stack): texts nested far deeper
+    # than any stack can recurse, for every command that parses a recursive syntax.  calc is limited to 20000 levels of
+    # parentheses and 10000 prefix operators (finding F32: ~5*10^4 levels abort; longer prefix chains take minutes), conditions to
+    # 20000 groups (finding F30)
+    for d_ in (200, 5000, 100000):
+        for t_ in ("[" * d_, "[" * d_ + "]" * d_, '{"a":' * d_ + "1" + "}" * d_, '[{"a":' * (d_ // 2) + "1"):
+            scripts.append("r = json_parse %s\nr2 = json_parse --collection %s\n" % (quote(t_), quote(t_)))
+        dc_ = min(d_, 20000)
+        scripts.append("r = calc %s1%s\n" % ("(" * dc_, ")" * dc_))
+        scripts.append("r = calc %s\n" % ("(" * dc_))
+        scripts.append("r = calc %s1\nr2 = calc %strue\n" % ("-" * min(d_, 10000), "!" * min(d_, 10000)))
+        scripts.append("if %strue%s\nend\nr = not %sfalse%s\n" % ("( " * dc_, " )" * dc_, "( " * dc_, " )" * dc_))
+        scripts.append("a = array\n" + "b = array ${a}\na = array ${b}\n" * min(d_, 5000) + "r = json_encode --collection ${a}\nrelease -r ${a}\n")
     n_straight = len(scripts)
     scripts += [gen_flow_script(rng) for _ in range(20000 if thorough else 3000)]
     lines = ["S\t" + enc_str(t) for t in texts + scripts]
@@ -617,5 +640,5 @@ def run(ck):
     ck.assumptions += [
         "exploration is testing: it supports the claim for the unmodelled ~200 commands and never stands in for a theorem",
         "commands that block or leave the process, need the network, or write/delete files are excluded from generation (listed in commands_excluded)",
-        "the classes of the open findings F8 (join_path argument outside C09's safe class: containing $ % CR LF # \" backslash or surrounding white space), F12 (include cycle), F13 (range/random_text with a span above 10^5), F17 (alias definitions that can form a cycle), F23 (json_encode after a handle was stored inside a collection), F25 (alias of a user function; functions are not generated) are excluded from generation",
+        "the classes of the open findings F8 (join_path argument outside C09's safe class: containing $ % CR LF # \" backslash or surrounding white space), F12 (include cycle), F13 (range/random_text with a span above 10^5), F17 (alias definitions that can form a cycle), F23 (json_encode after a handle was stored inside a collection), F30 / F32 (conditions / calc expressions nested deeper than 20000 levels), F25 (alias of a user function; functions are not generated) are excluded from generation",
     ]
